@@ -1367,6 +1367,19 @@ class Interp:
       return [_dot_general(L[0], L[1], **params)]
     if p == 'sort':
       return _sort(lifted(), **params)
+    if p == 'top_k':
+      (a,) = lifted()
+      k = params['k']
+      n = a.shape[-1]
+      idx = np.empty(a.shape, dtype=object)
+      for lead in np.ndindex(*a.shape[:-1]):
+        for i in range(n):
+          idx[lead + (i,)] = i
+      neg = ew(f_neg, a)
+      srt = _sort([neg, idx], dimension=a.ndim - 1, num_keys=1)      # descending by value, ties toward the lowest index
+      vals = ew(f_neg, srt[0])
+      sl = (slice(None),) * (a.ndim - 1) + (slice(0, k),)
+      return [vals[sl], srt[1][sl]]
     if p == 'iota':
       raise Unsupported('iota with symbolic operands')
     if p in STRUCTURAL:
